@@ -1,0 +1,29 @@
+// Verification hooks (compiled in only with -DCB_VERIF; otherwise this header is empty).
+// cb_verif_trace(fmt, ...) appends one line to the file named by the environment variable
+// CB_VERIF_TRACE; without that variable it does nothing.
+#pragma once
+#ifdef CB_VERIF
+#include <cstdarg>
+#include <cstdio>
+#include <cstdlib>
+inline void cb_verif_trace(const char *fmt, ...) {
+    static FILE *out = nullptr;
+    static bool init = false;
+    if (!init) {
+        init = true;
+        const char *path = std::getenv("CB_VERIF_TRACE");
+        if (path && *path) {
+            out = std::fopen(path, "a");
+        }
+    }
+    if (!out) {
+        return;
+    }
+    va_list ap;
+    va_start(ap, fmt);
+    std::vfprintf(out, fmt, ap);
+    va_end(ap);
+    std::fputc('\n', out);
+    std::fflush(out);
+}
+#endif
